@@ -54,7 +54,8 @@ class Annulus(Sketch):
                 "Outer ring radius must be larger than inner!",
                 f"Inner radius: {self.inner_radius}, Outer radius: {self.outer_radius}",
             )
-        diff = abs(np.dot(normal, outer_radius_point - center_point))
+        # (the cosine of the angle: a test that does not depend on the size of the ring)
+        diff = abs(np.dot(normal, f.unit_vector(outer_radius_point - center_point)))
         if diff > TOL:
             raise AnnulusCreationError(
                 "Normal and radius are not perpendicular!", f"Difference: {diff}, tolerance: {TOL}"
